@@ -85,11 +85,9 @@ def check_agree(case):
 
     # supports straddle 0 (zero phase) / start at 0 (causal gammatone)
     if spec["alias"] == "gammatone":
-        require(not bank.is_zero_phase, "gammatone bank claims to be zero phase")
         if not spec.get("max_centered"):
             require(left == 0, "causal gammatone filter {}: support starts at sample {} instead of 0", i, left)
     else:
-        require(bool(bank.is_zero_phase), "{} bank is not zero phase", spec["alias"])
         require(left < 0 < right, "zero-phase filter {}: supports {!r} do not straddle sample 0", i, (left, right))
 
     x = call("get_impulse_response", bank.get_impulse_response, i, W)
@@ -160,7 +158,7 @@ def _cases():
     )
     return st.fixed_dictionaries({
         "bank": banks, "filt": st.integers(0, 39),
-        "wmode": st.sampled_from(["base", "base+1", "mult", "mult"]),
+        "wmode": st.sampled_from(["base", "base+1", "mult", "mult", "mult"]),
         "mult": st.one_of(floats(1.0, 4.0), floats(1.0, 1.2)),
     })
 
@@ -169,5 +167,5 @@ def clauses(tier):
     return [
         Clause("agree", check_agree,
                "one (bank, filter with supports_hz span <= rate, width in {base, base+1, [base, 4 base]}) per case: |ifft(H) - h| <= 2 thr, dtype real iff is_real, |h| < 2 thr outside supports (mod width), |H| < 2.5 thr outside supports_hz (mod rate, mirrored if real), supports straddle 0 / start at 0. Non-trivial = temporal support >= 5 samples and width != base",
-               _cases, quick=3000, thorough=60000),
+               _cases, quick=3000, thorough=160000),
     ]
